@@ -116,7 +116,7 @@ def load_job_payload(job: Dict[str, Any], work: Path):
         gens: List[Any] = []
         for k, part in enumerate(mix.split("+")):
             if part == "adv":
-                gens.append(adv.Adversary(job["seed"] * 7 + k, label=f"Adversary{k}", p_instr=0.3))
+                gens.append(adv.Adversary(job["seed"] * 7 + k, label=f"Adversary{k}", p_instr=job.get("p_instr", 0.3), kinds=job.get("kinds")))
             elif part == "counter":
                 gens.append(adv.CountingGenerator())
             elif part == "queue":
